@@ -772,7 +772,7 @@ struct ent {
   volatile uint64_t h1, h2, w;
 };
 struct shared {
-  volatile uint64_t nlog, nstates, overflow;
+  volatile uint64_t nlog, nstates, overflow, count_saturated;
   uint64_t cap, logcap;
 };
 static struct shared *g_sh;
@@ -805,7 +805,7 @@ shared_reset(void) {
 
 /* returns 1 if (h1,h2) was not known before this call */
 static int
-visit(uint64_t h1, uint64_t h2, int level, uint64_t idx) {
+visit(uint64_t h1, uint64_t h2, int level, uint64_t idx, int final_level) {
   uint64_t mask = g_sh->cap - 1;
   uint64_t j = (h1 * 0x9E3779B97F4A7C15ULL) >> 20 & mask;
   uint64_t w = ((uint64_t)(level + 1) << 56) | (idx + 1);
@@ -815,7 +815,11 @@ visit(uint64_t h1, uint64_t h2, int level, uint64_t idx) {
     int mine = 0;
     if (cur == 0) {
       if (g_sh->nstates * 2 > g_sh->cap || g_sh->nlog >= g_sh->logcap) {
-        g_sh->overflow = 1;
+        /* states of the last level are not expanded, they are only counted: a full table then only saturates the count */
+        if (final_level)
+          g_sh->count_saturated = 1;
+        else
+          g_sh->overflow = 1;
         return 0;
       }
       if (__sync_bool_compare_and_swap(&e->h1, 0, h1)) {
@@ -934,7 +938,7 @@ bfs_case(uint64_t idx, void *arg) {
   else {
     uint64_t h1, h2;
     canon_hash(&st, &h1, &h2);
-    if (visit(h1, h2, b->level, idx))
+    if (visit(h1, h2, b->level, idx, b->level == b->depth))
       vxp_count(C_NEWSTATE, 1);
     if (idx % 50021 == 0 && b->level >= 2)
       vxp_sample("%s -> token %zu, %d options, payload %zu, used_size=%zu alloc_size=%zu max_size=%zu: dump, internal fields, "
@@ -998,7 +1002,7 @@ run_bfs(struct bfs *b, struct bfs_result *res) {
     }
     uint64_t h1, h2;
     canon_hash(&st, &h1, &h2);
-    if (visit(h1, h2, 0, (uint64_t)i)) {
+    if (visit(h1, h2, 0, (uint64_t)i, 0)) {
       front[nfront].init = (uint8_t)i;
       front[nfront].n = 0;
       nfront++;
@@ -1080,9 +1084,9 @@ run_bfs(struct bfs *b, struct bfs_result *res) {
   free(front);
   char key[80], val[200];
   snprintf(key, sizeof key, "bfs.%s", b->name);
-  snprintf(val, sizeof val, "inits=%d edits=%d option-cap=%d depth-bound=%d levels-completed=%d states=%llu fixpoint=%d complete=%d",
-           b->inits->n, b->alpha->n, b->cap_opts, b->depth, res->levels_done, (unsigned long long)res->states, res->fixpoint,
-           res->complete);
+  snprintf(val, sizeof val, "inits=%d edits=%d option-cap=%d depth-bound=%d levels-completed=%d states%s%llu fixpoint=%d complete=%d",
+           b->inits->n, b->alpha->n, b->cap_opts, b->depth, res->levels_done, g_sh->count_saturated ? ">=" : "=",
+           (unsigned long long)res->states, res->fixpoint, res->complete);
   vx_ev_str(key, val);
 }
 
@@ -1138,7 +1142,7 @@ main(int argc, char **argv) {
     const int kc[] = {K_BUILT, K_PARSED_TCP}, oc[] = {0, 3}, sc[] = {0, 2};
     mk_inits(&I_c, kc, 2, oc, 2, sc, 2);
   }
-  shared_alloc(T ? 1ULL << 26 : 1ULL << 23, T ? 1ULL << 25 : 1ULL << 22);
+  shared_alloc(T ? 1ULL << 25 : 1ULL << 23, T ? 1ULL << 24 : 1ULL << 22);
   read_replay_space();
 
   struct bfs runs[4];
